@@ -260,10 +260,15 @@ class World:
                 self.log("done", side=X, linked=ft._channels.get(self.ch[X].chanid) is not None)
         return body
 
-    def loser(self, X):
+    def loser(self, X, when=None):
+        """the side's transport dies; when="zero": not before the side's send window is used up (a writer is about to park)"""
         def body():
             _mark("call")
             self.S.switch_point("call")
+            if when == "zero":
+                ch = self.ch[X]
+                if ch.out_window_size != 0:
+                    self.S.block(lambda: ch.out_window_size == 0, None, "await_zero")
             self.ft[X].active = False
             self.log("lost", side=X)
             self.ch[X]._unlink()
@@ -302,7 +307,7 @@ def scenario(prog):
             X = "A" if name in USERS["A"] or name.startswith("dA") else "B"
             S.spawn(w.user(name, X, [tuple(o) for o in ops]), name)
         for X in prog.get("lost", ()):
-            S.spawn(w.loser(X), "L" + X)
+            S.spawn(w.loser(X, prog.get("lost_when", {}).get(X)), "L" + X)
         for X in "AB":
             S.spawn(w.transport(X), "T" + X)
         S.world = w
